@@ -55,6 +55,8 @@ class UnionSpecifier(VersionSpecifier):
             # (-inf, X.Y.0) | [X.Y+1.0, inf) => != X.Y.*
             if left.max.is_prerelease or right.min.is_prerelease:
                 return None
+            if left.max.is_postrelease or right.min.is_postrelease:
+                return None
             left_stable = [left.max.epoch, *left.max.release]
             right_stable = [right.min.epoch, *right.min.release]
             max_length = max(len(left_stable), len(right_stable))
@@ -62,7 +64,7 @@ class UnionSpecifier(VersionSpecifier):
             right_stable = pad_zeros(right_stable, max_length)
             first_different = first_different_index(left_stable, right_stable)
             if (
-                first_different > 0
+                0 < first_different < max_length
                 and right_stable[first_different] - left_stable[first_different] == 1
                 and set(
                     left_stable[first_different + 1 :]
